@@ -9,7 +9,8 @@
 """
 from . import lib, taint
 
-BYTE_SOURCES = ["str::len", "String::len", "str::find", "str::rfind", "Identifier::len", "str::match_indices", "str::char_indices"]
+BYTE_SOURCES = ["str::len", "String::len", "str::find", "str::rfind", "Identifier::len", "str::match_indices", "str::char_indices", "char::len_utf8",
+                "methods::len_utf8"]
 LEN_CARRIER = taint.make_carrier(taint._INTS)
 
 
@@ -217,11 +218,47 @@ def r175(ctx, fx):
         ctx.fail_closed(rid, "fewer than 2 constructions of Position.character found in the formatting module (%d)" % n)
 
 
+def r176(ctx, fx):
+    rid = ctx.rule("R17.6", "the edits are computed against the buffer as the client has it: the first argument of get_text_edits in do_formatting is the stored text of "
+                   "the document itself (`File::source()`), not a copy that went through `replace` / `trim` / a helper — ranges computed on a text with other line "
+                   "ends or other characters do not cover what differs in the client's text (a `\\r` that is never inside any range stays)")
+    df = fx.fn("mos::lsp::formatting::do_formatting")
+    if df is None or not df.d.get("hir"):
+        ctx.fail_closed(rid, "do_formatting not found")
+        return
+    calls = [x for x, p in lib.hir_calls(df.hir["body"]) if p and p.endswith("formatting::get_text_edits")]
+    key = "do_formatting|diff-against-the-buffer"
+    if len(calls) != 1:
+        ctx.fail_closed(rid, "expected one call of get_text_edits in do_formatting, found %d" % len(calls))
+        return
+    lets = {}
+    for n in lib.hwalk(df.hir["body"]):
+        if n.get("k") in ("let", "letx") and "init" in n and n["pat"].get("k") == "bind":
+            lets[n["pat"]["name"]] = n["init"]
+    e = lib.strip(lib.hargs(calls[0])[0])
+    chain = []
+    for _ in range(6):
+        chain.append(e)
+        nm = lib.hpath(e)
+        if nm in lets:
+            e = lib.strip(lets[nm])
+        else:
+            break
+    callees = [p for c in chain for x, p in lib.hir_calls(c) if p]
+    plain = bool(callees) and all(lib.pm(p, "File::source") or p.endswith(("::deref", "::as_str", "::as_ref", "::borrow")) for p in callees)
+    ctx.inst(rid, key, sample={"old_text_comes_from": [p.rsplit("::", 2)[-2] + "::" + p.rsplit("::", 1)[-1] for p in callees]})
+    if not plain:
+        ctx.finding(rid, key, "do_formatting diffs the formatted text against something other than the stored document text (%s): the edits fit that other text, "
+                    "not the buffer the client applies them to" % ", ".join(p.rsplit("::", 1)[-1] for p in callees if not lib.pm(p, "File::source")) or "no source() call",
+                    "%s:%s" % (df.file, calls[0].get("ln")))
+
+
 def run(ctx):
     fx = ctx.facts
     r171(ctx, fx)
     r172_173(ctx, fx)
     r174(ctx, fx)
     r175(ctx, fx)
+    r176(ctx, fx)
     ctx.not_decided("that applying the edits yields exactly the formatted text on concrete buffers; overlap/ordering of edits on concrete diffs; UTF-16 vs code-point "
                     "counting for characters outside the BMP")
